@@ -30,6 +30,10 @@ pub fn exercise(input: &str) -> Result<(&'static str, bool), String> {
                 Ok(c) => {
                     catch(|| c.scheme("/")).map_err(|p| format!("scheme(\"/\") panicked: {p}"))?;
                     catch(|| c.scheme(HOSTILE_DEVICE)).map_err(|p| format!("scheme(hostile) panicked: {p}"))?;
+                    // further renderings of the same compiled expression, after a hostile one
+                    for p in ["/mnt/\"é", "x", "", "日\\\"本", "/"] {
+                        catch(|| c.scheme(p)).map_err(|e| format!("scheme({p:?}) after earlier renderings panicked: {e}"))?;
+                    }
                     catch(|| c.io_map()).map_err(|p| format!("io_map() panicked: {p}"))?;
                     Ok(("program", true))
                 }
